@@ -110,9 +110,58 @@ GENERAL = ["0.4", "0.5", "0.6", "-0.4", "-0.5", "-0.6", "0.49999999999999994", "
            "1" + "0" * 40, "1" + "0" * 40 + ".0", "0." + "0" * 40 + "1", "9" * 25, "0.1", "0.3", "1.1e1", "655.35e2", "2.55e2", "25.5e1", "127.5", "-128.5", "255.5", "65535.5", "-32768.5", "32767.5"]
 
 
+# spellings at the internal limits of a reader: exponents beyond any 16-bit bound, zero-padded exponents and mantissas,
+# digit runs of 255 / 256 / 257 / 512, literals longer than 1100 bytes whose decisive digit lies beyond byte 1100
+LIMITS = (["0e32001", "0e99999", "-0.0E+99999", "1e-40000", "1e32001", "1e-32001", "0e-32001", "5e-32769", "0E65536", "1e65535", "-1e65536",
+           "1E+0000000003", "2.5E-0000000001", "0.04E+0000000001", "1e00000000000000000002", "1E-00000000000", "5E+000000000000", "7e-0000000000000000000001",
+           "0" * 37 + "42", "0" * 400 + "7", "-" + "0" * 50 + "1", "0" * 39, "0" * 38 + "1.5", "0" * 254 + "5", "0" * 255 + "5", "0" * 256 + "5", "." + "0" * 255 + "5",
+           "." + "0" * 256 + "5", "0" * 511 + "1", "0" * 512 + ".5", "1." + "0" * 255 + "1", "0." + "5" * 256, "00000000000000000000000000000000000000127", "-" + "0" * 40 + "128",
+           "9007199254740993." + "0" * 1090 + "1", "16777217." + "0" * 1100 + "1", "0.5" + "0" * 1200 + "1", "0.4" + "9" * 1200, "1." + "0" * 1099 + "1", "2.5" + "0" * 1100 + "1",
+           "8388608.5" + "0" * 1100 + "1", "4503599627370496.5" + "0" * 1085 + "1", "0." + "0" * 1100 + "1"])
+
+
+def f32_double_rounding_literals(rng, n):
+    """decimal literals that lie so close to (but not on) the midpoint of two adjacent f32 values that rounding them to
+    f64 first lands exactly on the midpoint: parsing through f64 and narrowing then gives the wrong neighbour"""
+    import struct
+    out = []
+    for digits, quota in ((15, n // 2), (14, n // 8), (17, n // 4), (20, n - n // 2 - n // 8 - n // 4)):
+        got = []
+        tries = 0
+        while len(got) < quota and tries < 400000:
+            tries += 1
+            e = rng.randint(-30, 40)
+            mant = rng.randint(2 ** 23, 2 ** 24 - 1)
+            mid = Fr(2 * mant + 1, 2) * Fr(2) ** (e - 23)            # midpoint between mant and mant+1 at exponent e
+            midf = float(mid)
+            if Fr(midf) != mid: continue
+            s = "%.*e" % (digits - 1, midf)                          # nearest decimal with that many significant digits
+            for cand in (s, _nudge(s, +1), _nudge(s, -1)):
+                v = Fr(cand)
+                if v == mid or float(cand) != midf: continue         # must round to the midpoint in f64, without being it
+                lo = Fr(mant) * Fr(2) ** (e - 23); hi = Fr(mant + 1) * Fr(2) ** (e - 23)
+                correct = hi if v > mid else lo
+                twice = struct.unpack("<f", struct.pack("<f", midf))[0]     # ties-to-even of the midpoint
+                if Fr(twice) != correct:
+                    got.append(cand if rng.random() < 0.5 else "-" + cand)
+        out += got[:quota]
+    return list(dict.fromkeys(out))
+
+
+def _nudge(s, d):
+    """add d units in the last place of the mantissa of a %e-formatted literal"""
+    m, e = s.split("e")
+    digs = m.replace(".", "")
+    n = int(digs) + d
+    if n <= 0: return s
+    t = str(n)
+    if len(t) != len(digs): return s
+    return t[0] + "." + t[1:] + "e" + e
+
+
 def int_literals(rng, ty, n_random):
     lo, hi, fmt = INTS[ty]
-    out = list(ZEROS) + list(GENERAL)
+    out = list(ZEROS) + list(GENERAL) + list(LIMITS)
     for b in (lo, hi):
         for d in ["-1", "-0.6", "-0.501", "-0.5", "-0.499", "-0.4", "0", "0.4", "0.499", "0.5", "0.501", "0.6", "1", "1.5", "2"]:
             out.append(dec_str(Fr(b) + Fr(d)))
@@ -136,7 +185,8 @@ def int_literals(rng, ty, n_random):
 
 def float_literals(rng, fmt, n_random):
     prec, emax, w = FMT[fmt]
-    out = list(ZEROS) + list(GENERAL)
+    out = list(ZEROS) + list(GENERAL) + list(LIMITS)
+    if fmt == "f32": out += f32_double_rounding_literals(rng, 40 if n_random < 1000 else 400)
     emin = 3 - emax - prec
 
     def exact(fr, sig=None):
